@@ -230,10 +230,35 @@ def exact(x) -> str:
         return repr(x)
 
 
+FORMS_USED = {}
+
+
 def mk_event(spec: dict):
+    """The Event a spec denotes. The FORM in which start and duration are handed to Event varies with the spec (a
+    function of its numbers, so that a replay builds the same thing): mostly an aware datetime and a timedelta, but
+    about a quarter of the events get their start as an ISO 8601 string carrying the offset (or, when the offset is
+    zero, as a naive datetime, which the library reads as UTC) or their duration as a float / int number of seconds -
+    every form Event's signature accepts denotes the same event."""
     from aw_core.models import Event
-    return Event(id=spec.get("id"), timestamp=mk_dt(spec["ts"], spec.get("off", 0), spec.get("zone")),
-                 duration=timedelta(microseconds=spec["dur"]), data=materialise(copy.deepcopy(spec.get("data", {}))))
+    ts = mk_dt(spec["ts"], spec.get("off", 0), spec.get("zone"))
+    dur = timedelta(microseconds=spec["dur"])
+    form = "datetime+timedelta"
+    if not spec.get("zone") and spec.get("form", True):
+        h = (spec["ts"] // 1000 * 7 + spec["dur"] * 13 + spec.get("off", 0)) % 16
+        if h == 0:
+            ts, form = ts.isoformat(), "iso-string"
+        elif h == 1 and spec.get("off", 0) == 0:
+            ts, form = ts.replace(tzinfo=None), "naive-datetime"
+        elif h == 1:
+            ts, form = ts.isoformat().replace("T", " "), "iso-string-with-space"
+        elif h == 2:
+            dur, form = spec["dur"] / 10**6, "float-seconds"
+            if timedelta(seconds=dur) != timedelta(microseconds=spec["dur"]):     # (cannot happen below ~100 years)
+                dur, form = timedelta(microseconds=spec["dur"]), "datetime+timedelta"
+        elif h == 3 and spec["dur"] % 10**6 == 0:
+            dur, form = spec["dur"] // 10**6, "int-seconds"
+    FORMS_USED[form] = FORMS_USED.get(form, 0) + 1
+    return Event(id=spec.get("id"), timestamp=ts, duration=dur, data=materialise(copy.deepcopy(spec.get("data", {}))))
 
 
 def mk_events(specs):
